@@ -326,6 +326,15 @@ func funcKey(fn *ssa.Function) string {
 	if o := fn.Origin(); o != nil {
 		fn = o
 	}
+	if fn.Parent() != nil {
+		// a function literal is named after its outermost enclosing function, receiver type included:
+		// factstore.TemporalFactStoreAdapter.GetFacts$1 (go/ssa calls it GetFacts$1, which every GetFacts method shares)
+		root := fn
+		for root.Parent() != nil {
+			root = root.Parent()
+		}
+		return funcKey(root) + strings.TrimPrefix(fn.Name(), root.Name())
+	}
 	pkg := ""
 	if fn.Pkg != nil {
 		pkg = relPkgPath(fn.Pkg.Pkg)
